@@ -214,7 +214,13 @@ class ExpressionManager(object):
             n = up.model.fnode.FNode(content, self._next_free_id, self.environment)
             self._next_free_id += 1
             self.expressions[content] = n
-            self.environment.type_checker.get_type(n)
+            try:
+                self.environment.type_checker.get_type(n)
+            except Exception:
+                # an ill-typed node must not stay in the table, or building the same
+                # expression again would return it instead of raising
+                del self.expressions[content]
+                raise
             return n
 
     def And(
